@@ -1,6 +1,8 @@
 //! Engine K checks: the real compio runtime, driver, fs and net crates on the simulated io_uring kernel.
 
+mod kutil;
 mod smoke;
+mod streams;
 
 use simcore::worker::Scenario;
 
@@ -10,5 +12,6 @@ static ALLOC: simcore::quarantine::Quarantine = simcore::quarantine::Quarantine;
 fn main() {
     let mut scenarios: Vec<Scenario> = Vec::new();
     scenarios.extend(smoke::scenarios());
+    scenarios.extend(streams::scenarios());
     simcore::worker::main(&scenarios)
 }
